@@ -21,6 +21,7 @@ type faultRes struct {
 	WriteErr string   `json:"write_err"`
 	CacheDir string   `json:"cache_dir"`
 	Order    []string `json:"order_violations"`
+	Conc     bool     `json:"concurrent"`
 }
 
 type atomicOp struct {
@@ -102,7 +103,10 @@ func RunC07(tier string) int {
 		}
 		if r.WriteErr != "" {
 			run.Count("faults_that_failed_the_write", 1)
-			run.Nontrivial(fmt.Sprintf("fault|%s|%d|%v", r.FailOp, r.FailAt, r.Midway))
+			run.Nontrivial(fmt.Sprintf("fault|%s|%d|%v|%v", r.FailOp, r.FailAt, r.Midway, r.Conc))
+		}
+		if r.Conc {
+			run.Count("inprocess_fault_cases_with_two_concurrent_writers", 1)
 		}
 		run.Count("backend_calls_recorded", r.Ops)
 		for _, v := range r.Order {
@@ -119,6 +123,9 @@ func RunC07(tier string) int {
 					kind = "blob-content-mismatch"
 				} else if len(rep.TargetBad) > 0 {
 					kind = "target-result-undecodable"
+				}
+				if r.Conc {
+					kind += " writers=concurrent"
 				}
 				run.Violation("inprocess-fault cache-inconsistent "+kind+fmt.Sprintf(" op=%s midway=%v", r.FailOp, r.Midway),
 					fmt.Sprintf("after failing backend call %s@%d (midway=%v) the cache at rest: %s %v %v %v", r.FailOp, r.FailAt, r.Midway, rep.Summary(), rep.CasBad, rep.TargetBad, rep.Dangling),
